@@ -39,6 +39,10 @@ var primitiveEffects = map[string]string{
 	"io/ioutil.WriteFile": "fswrite", "io/ioutil.TempFile": "fswrite", "io/ioutil.TempDir": "fswrite",
 	"os.File.Write": "fswrite", "os.File.WriteString": "fswrite", "os.File.WriteAt": "fswrite", "os.File.Truncate": "fswrite", "os.File.Chmod": "fswrite", "os.File.ReadFrom": "fswrite",
 	"os.Exit": "exit",
+	// only used to decide which functions may be RUN on enumerated arguments (rtc.go)
+	"github.com/rs/zerolog.Logger.Fatal": "fatal", "github.com/rs/zerolog.Logger.Panic": "fatal",
+	"os.ReadFile": "fsread", "os.Open": "fsread", "os.Stat": "fsread", "os.Lstat": "fsread", "os.ReadDir": "fsread",
+	"path/filepath.WalkDir": "fsread", "path/filepath.Walk": "fsread", "path/filepath.Glob": "fsread", "io/ioutil.ReadFile": "fsread",
 	// readers that can hand back a part of the input without an error (C17)
 	"bufio.Reader.ReadLine": "partialread", "io.LimitReader": "partialread", "io.CopyN": "partialread", "io.ReadAtLeast": "partialread",
 	"io.ReadFull": "partialread", "os.File.Read": "partialread", "os.File.ReadAt": "partialread", "bufio.Reader.Read": "partialread",
